@@ -32,8 +32,9 @@
 import RosuModel.Props.C15IeeeVelocity
 import RosuModel.Props.C12Ieee
 import RosuModel.Props.C02CodecIeee
+import RosuModel.Props.C02Timing
 namespace Rosu.C02
-open Rosu Scalar Rosu.FErr Rosu.C15
+open Rosu Scalar Rosu.FErr Rosu.C15 Encode EncodeLines RtTiming
 
 /-! ### the three steps of the round trip of one value -/
 
@@ -394,5 +395,126 @@ theorem sv_second_round_err_float (sv : Float) (h1 : Scalar.le (0.1 : Float) sv 
     (h2 : Scalar.le sv (10 : Float) = true) :
     |toRat (svRoundtrip (svRoundtrip sv)) - toRat (svRoundtrip sv)| ≤ driftBound * toRat (svRoundtrip sv) :=
   (sv_roundtrip_err_float _ (sv_roundtrip_within_float sv h1 h2).1 (sv_roundtrip_within_float sv h1 h2).2).2
+
+/-! ### the link to `timing_rt`: its hypothesis `SvInverse` is "no drift" -/
+
+/-- for a value of the decoded range, the hypothesis `SvInverse` of `inherited_line_rt` / `TimelineHyps` (Lemmas/RtTimingRt.lean)
+on the driver's instance says exactly that the value does not drift (the sign condition always holds). -/
+theorem svInverse_iff_float (v : Float) (h1 : Scalar.le (0.01 : Float) v = true) (h2 : Scalar.le v (10 : Float) = true) :
+    SvInverse v ↔ svReread v = v := by
+  obtain ⟨fs, V1, _, V2⟩ := scroll_range_float v h1 h2
+  obtain ⟨hlt, _, hre, _⟩ := reread_factors_float v fs V1 V2
+  constructor
+  · intro h; rw [hre]; exact h.2
+  · intro h; exact ⟨hlt, by rw [← hre]; exact h⟩
+
+/-- so `TimelineHyps` — the hypothesis of `timing_rt` / `timing_roundtrip_file` — FAILS on a collection that stores the
+slider velocity `2.75`: the exact-arithmetic theorem does not even apply there, quite apart from `EpsLaws`. -/
+theorem svInverse_false_float : ¬ SvInverse (2.75 : Float) := by
+  rw [svInverse_iff_float _ (by decide +kernel) (by decide +kernel)]
+  decide +kernel
+
+/-- **the values a decoder produces do not drift** (statement, NOT proved): whatever beat length `b` an inherited line
+carries, the slider velocity the decoder stores for it is reproduced *exactly* by a round trip. (In the interior of the
+clamp this is `fl(100 / fl(100 / fl(100 / x))) = fl(100 / x)`.) Same numerical evidence as for the fixed-point statement,
+plus `3 · 10⁶` random `b ∈ [-1000, -10]`: no counterexample. The drifting values (`2.75`, `1.31`, … about 7 % of the
+doubles of the range) are exactly values that are NOT of the form `fl(100 / x)`. -/
+def sv_decoded_roundtrip_exact_float_statement : Prop :=
+  ∀ b : Float, svRoundtrip (Scalar.clamp (speedRead b) (0.1 : Float) (10 : Float)) =
+    Scalar.clamp (speedRead b) (0.1 : Float) (10 : Float)
+
+/-- the fixed-point statement is the special case `b = (-100) / sv` (proved). -/
+theorem sv_roundtrip_idempotent_of_decoded_exact (h : sv_decoded_roundtrip_exact_float_statement) :
+    sv_roundtrip_idempotent_float_statement :=
+  fun sv _ _ => h (beatLenWritten sv)
+
+/-- instances: the beat lengths written for the drifting `2.75`, `0.17` are read to values that do not drift;
+so are a positive beat length (multiplier `1`), an infinite and a NaN one (kernel-evaluated). -/
+theorem sv_decoded_roundtrip_exact_witnesses_float :
+    (∀ b ∈ [Float.ofBits 0xC0422E8BA2E8BA2F, Float.ofBits 0xC08261E1E1E1E1E2, (-333.33 : Float), (-1000 : Float),
+        (-10 : Float), (-7 : Float), (-20000 : Float), (500 : Float), (0 : Float), Float.ofBits 0xFFF0000000000000,
+        Float.ofBits 0x7FF8000000000000],
+      svRoundtrip (Scalar.clamp (speedRead b) (0.1 : Float) (10 : Float)) =
+        Scalar.clamp (speedRead b) (0.1 : Float) (10 : Float)) := by
+  decide +kernel
+
+/-! ### (5) the timeline: why "close" does not follow value by value -/
+
+/-- **a redundancy test flips under the drift** (kernel-evaluated). `s₁ = 0.19` and `s₂ = 0.19 + 2⁻⁵²` (8 ulps apart) are
+NOT within `f64::EPSILON` of each other, so the encoder's `is_redundant` writes an inherited line for each; `s₁` comes
+back one ulp above, `s₂` unchanged, and the re-read values ARE within `EPSILON` — the decoder's
+`DifficultyPoint::is_redundant` drops the second point, and the effective slider velocity after the second line is
+`s₁ + 1 ulp` instead of `s₂`: **7 ulps** off (`≈ 9 · 2⁻⁵³` relative), outside `driftBound`. -/
+theorem sv_redundancy_flips_float :
+    let s₁ : Float := 0.19
+    let s₂ : Float := Float.ofBits 0x3FC851EB851EB85A
+    Scalar.le (0.1 : Float) s₁ = true ∧ Scalar.le s₂ (10 : Float) = true ∧
+    s₁ = Float.ofBits 0x3FC851EB851EB852 ∧
+    Scalar.lt (Scalar.abs (s₂ - s₁)) (Scalar.eps : Float) = false ∧
+    svRoundtrip s₁ = Float.ofBits 0x3FC851EB851EB853 ∧ svRoundtrip s₂ = s₂ ∧
+    Scalar.lt (Scalar.abs (svRoundtrip s₂ - svRoundtrip s₁)) (Scalar.eps : Float) = true := by
+  decide +kernel
+
+/-- the same for scroll speeds near `0.011` (taiko / mania): the two speeds are `128` ulps (`2⁻⁵²`) apart, after the
+round trip `126`: the second effect point is dropped, the effective scroll speed is **127 ulps** off. -/
+theorem scroll_redundancy_flips_float :
+    let s₁ : Float := Float.ofBits 0x3F86872B020C49C2
+    let s₂ : Float := Float.ofBits 0x3F86872B020C4A42
+    Scalar.le (0.01 : Float) s₁ = true ∧ Scalar.le s₂ (10 : Float) = true ∧
+    Scalar.lt (Scalar.abs (s₂ - s₁)) (Scalar.eps : Float) = false ∧
+    scrollRoundtrip s₁ = Float.ofBits 0x3F86872B020C49C3 ∧ scrollRoundtrip s₂ = Float.ofBits 0x3F86872B020C4A41 ∧
+    Scalar.lt (Scalar.abs (scrollRoundtrip s₂ - scrollRoundtrip s₁)) (Scalar.eps : Float) = true := by
+  decide +kernel
+
+/-- `TimelineHyps` without the exact inverse `SvInverse`: what a `Float` collection with values in the decoded ranges
+satisfies. -/
+structure TimelineHypsIeee (mode : GameMode) (cp : ControlPoints Float) : Prop where
+  sorted : C13.Sorted cp
+  sig : ∀ t ∈ cp.timingPoints, 1 ≤ t.timeSignature.numerator
+  beat : ∀ t ∈ cp.timingPoints, clamp t.beatLen (6 : Float) (60000 : Float) = t.beatLen ∧ lt t.beatLen (0 : Float) = false
+  sv : ∀ v ∈ (1 : Float) :: svSource mode cp,
+    (match mode with
+     | .taiko | .mania => Scalar.le (0.01 : Float) v = true ∧ Scalar.le v (10 : Float) = true
+     | _ => Scalar.le (0.1 : Float) v = true ∧ Scalar.le v (10 : Float) = true)
+
+/-- **the timeline statement on doubles** (`timing_rt` with "equal" replaced by "within `driftBound`, relative"), a
+STATEMENT only. It is not proved, and for collections with arbitrary values of the range it is endangered by
+`sv_redundancy_flips_float` (a map-level counterexample would store `0.19` and `0.19 + 2⁻⁵²` at consecutive times; it
+has not been evaluated through the state machine here). See the closing comment for what is missing. -/
+def timing_rt_close_float_statement : Prop :=
+  ∀ (mode : GameMode) (cp : ControlPoints Float), TimelineHypsIeee mode cp →
+  ∀ g0 : GeneralState Float Float32, g0.mode = mode →
+    let cp' := (C12.runTpLines { (TimingPointsState.create : TimingPointsState Float Float32) with general := g0 }
+      ((groupEntries mode cp (timingGroups cp) Props.default).map (Entry.read g0.defaultSampleBank))).finish.2
+    cp'.timingPoints = cp.timingPoints ∧
+    ∀ u : Float, |toRat (svFor mode cp' u) - toRat (svFor mode cp u)| ≤ driftBound * toRat (svFor mode cp u) ∧
+      kiaiAt cp' u = kiaiAt cp u
+
+/-
+  What is proved and what is missing.
+
+  Proved: one value, one round trip — error `≤ 2u/(1−u)` relative, before and after the clamp, slider velocity and
+  scroll speed; the result is again in range, so `n` rounds cost at most `(1 + 2u/(1−u))^n − 1`; exact equality is
+  false (one ulp, both directions); `SvInverse` (the hypothesis of the exact-arithmetic `timing_rt`) is precisely
+  "no drift" and fails on `2.75`.
+
+  Not proved (stated): `sv_decoded_roundtrip_exact_float_statement` ⟹ `sv_roundtrip_idempotent_float_statement`.
+  A proof needs a *uniqueness* side of the rounding theory that Lemmas/FloatErr*.lean do not have yet: "a double `y`
+  with `|V − toRat y| < ½ ulp(y)` is `fl(V)`" (today only `Rnd`: the result is within half an ulp of the target grid).
+  With it: for `y = fl(c/x)`, `z = fl(c/y)` one shows `|c/z − y| < ½ ulp(y)` by comparing the relative half-ulps of `y`
+  and `z` (their mantissas multiply to `c · 2^k`): where `z` has the larger mantissa this is first-order; where it has the
+  smaller one, one uses instead that `x` itself lies in the rounding interval `c / [y ± ½ ulp]`, whose width is then
+  below one ulp of `z`, so `z` — the double nearest to `c/y` — lies in it as well, up to a second-order window of relative
+  width `≈ 2⁻⁵³` around mantissa ratio 1 (`1.25 · 2^k`, `√50 · 2^k`) which needs an integrality argument
+  (`c·2^j − y(2m+1)` is a non-zero integer). The brute-force windows around exactly these points found nothing.
+
+  The timeline: given the exactness statement, every value of a DECODED collection satisfies `SvInverse`
+  (`svInverse_iff_float`), so `TimelineHyps` holds for it as in exact arithmetic; what then still blocks `timing_rt` on
+  `Float` is only its use of `EpsLaws` / `GroupLaws` (`|a − b| < ε ↔ a = b`, refuted in Props/IeeeFalse.lean) to decide
+  the redundancy tests. Since encoder and decoder would see bit-identical values, the proof skeleton survives with
+  "the test gives the same answer on both sides" in place of "the test is equality" — a restructuring of
+  Lemmas/RtTimeline{Step,Groups,Main}.lean, not cheap. For collections that are not decoded (values off the image of
+  `x ↦ fl(100/x)`) the conclusion must be weakened by an additive `EPSILON`: `sv_redundancy_flips_float`.
+-/
 
 end Rosu.C02
